@@ -27,6 +27,8 @@ pub enum Op {
     Register { v: u8, add: bool },
     Whitelist { t: u8, add: bool },
     Shutdown,
+    /// AddVamm / RemoveVamm of the deployment's extra vAMM whose decimals differ from the engine's
+    RegisterAlien { add: bool },
 }
 
 #[derive(Clone, Debug, Serialize, Deserialize, PartialEq, Eq, Hash)]
@@ -56,6 +58,7 @@ pub struct Weights {
     pub register: u32,
     pub whitelist: u32,
     pub shutdown: u32,
+    pub alien: u32,
 }
 
 impl Weights {
@@ -79,6 +82,7 @@ impl Weights {
             register: 0,
             whitelist: 0,
             shutdown: 0,
+            alien: 0,
         }
     }
 }
@@ -101,6 +105,7 @@ pub struct CfgProfile {
     pub odd_vamms: bool,
     /// force 6 decimals (twin deployments)
     pub six_decimals: bool,
+    pub alien: bool,
 }
 
 impl CfgProfile {
@@ -117,6 +122,7 @@ impl CfgProfile {
             small_fund: true,
             odd_vamms: false,
             six_decimals: false,
+            alien: false,
         }
     }
 }
@@ -235,6 +241,7 @@ pub fn world_cfg_strategy(p: &CfgProfile) -> BoxedStrategy<WorldCfg> {
                     trader_balance: 1_000_000_000 * d,
                     poor_balance: 3 * d,
                     whitelist_whale: wl && p.caps,
+                    alien: p.alien,
                 })
         })
         .boxed()
@@ -286,6 +293,7 @@ pub fn op_strategy(w: &Weights) -> BoxedStrategy<Op> {
     add(w.register, (v(), any::<bool>()).prop_map(|(v, add)| Op::Register { v, add }).boxed());
     add(w.whitelist, (t(), any::<bool>()).prop_map(|(t, add)| Op::Whitelist { t, add }).boxed());
     add(w.shutdown, Just(Op::Shutdown).boxed());
+    add(w.alien, any::<bool>().prop_map(|add| Op::RegisterAlien { add }).boxed());
     proptest::strategy::Union::new_weighted(alts).boxed()
 }
 
